@@ -7,9 +7,18 @@ What is proved here is the algebra: *if* the checkpoint round-trips the complete
 *if* the map is order-preserving, then the three equations hold.  The premises themselves
 (the real objects pickle their whole state, no operator keeps state elsewhere) are checked on
 the implementation by `harness/props/c17.py`.
+
+The last section (`C03`) instantiates the algebra on the loop model of property C03
+(`DeapModel/Core/Loops.lean`): the machine state (generation counter, tape, `LState`) is complete
+(`state_complete`), `Loops.runGens` is the iterate of the machine step (`runGens_eq_run`), killing and
+resuming `runGens` / `eaSimple` / … from a round-tripping checkpoint gives the uninterrupted run
+(`c03_resume…`), and the evaluation block is independent of the completion schedule of the map
+(`c03_schedule_independent`, `c03_evalPhase_…`, `c03_runGens_…`).  Helpers: `DeapModel/Lemmas/C17Loops.lean`.
 -/
 import DeapModel.Core.Resume
+import DeapModel.Core.Loops
 import DeapModel.Lemmas.C17Buf
+import DeapModel.Lemmas.C17Loops
 
 namespace C17
 open Resume
@@ -19,9 +28,7 @@ open Resume
 section Run
 variable {S B : Type}
 
-theorem run_zero (r : Run S B) (s : S) : run r 0 s = s := rfl
 
-theorem run_succ (r : Run S B) (n : Nat) (s : S) : run r (n + 1) s = run r n (r.step s) := rfl
 
 /-- The other unfolding: the last generation can be split off as well. -/
 theorem run_succ' (r : Run S B) (n : Nat) (s : S) : run r (n + 1) s = r.step (run r n s) := by
@@ -35,9 +42,6 @@ theorem run_add (r : Run S B) (a b : Nat) (s : S) : run r (a + b) s = run r b (r
   | zero => simp [run]
   | succ a ih => rw [Nat.succ_add, run_succ, ih, run_succ]
 
-/-- Two executions of the same run from equal states agree after every number of generations. -/
-theorem deterministic_state (r : Run S B) (n : Nat) (s₁ s₂ : S) (h : s₁ = s₂) :
-    run r n s₁ = run r n s₂ := by rw [h]
 
 /-- Reproducibility: a second process executing the same code (a run whose step function is
 extensionally the same; its checkpoint format may even differ) goes through the same states. -/
@@ -193,14 +197,6 @@ end PMap
 section Loop
 variable {σ α β : Type}
 
-/-- A mapper that returns `map f xs` gives the evaluated population `[(x, f x)]`. -/
-theorem evalStep_eq (mapper : (α → β) → List α → List β) (f : α → β) (pop : List α)
-    (h : mapper f pop = pop.map f) : evalStep mapper f pop = pop.map (fun x => (x, f x)) := by
-  rw [evalStep, h]
-  clear h
-  induction pop with
-  | nil => rfl
-  | cons x xs ih => simp [ih]
 
 /-- Any two families of mappers that return the same lists drive the loop through the same
 states. -/
@@ -271,5 +267,348 @@ example : genLoop (fun _ f xs => (xs.map f).reverse) toyLoop 1 (genInit seqMappe
     ≠ genLoop seqMapper toyLoop 1 (genInit seqMapper toyLoop 0 [1, -2, 5]) := by decide
 
 end Loop
+
+/-! ### C17 on the loop model of C03 (`DeapModel/Core/Loops.lean`)
+
+The theorems above are about an abstract step function.  Here the step is the ACTUAL generation of the packaged
+loops, `Loops.generation` (eaSimple, eaMuPlusLambda, eaMuCommaLambda, harm, eaGenerateUpdate), and the statements
+are about `Loops.runGens` / `Loops.eaSimple` … themselves.  Helper definitions (`MState`, `genCore`, `loopStep`,
+`loopRun`, `assignZip`, `evalPhaseWith`, `generationWith`, `runGensWith`, …) and lemmas (`generation_eq_core`,
+`run_loopRun`, `assignFits_eq_zip`, …) are in `DeapModel/Lemmas/C17Loops.lean`. -/
+
+section C03
+open Variation Loops
+variable {σ B : Type}
+
+/-! #### The machine state is complete -/
+
+/-- One generation is a function of (generation number, tape, `st`, `pop`): `genCore` reads the tape, `st` and
+`pop` only, the generation number only labels the appended records, and the ghost records `log`, `shown`,
+`shownObj`, `evals` are only appended to. -/
+theorem state_complete_core (ev : List Int → List Int) (stp : Step σ) (g : Nat) (t : σ) (s : LState) :
+    generation ev stp g t s =
+      (genCore ev stp t s.st s.pop).map (fun c =>
+        (c.tape, { st := c.st, pop := c.pop, log := s.log ++ [(g, c.nevals)],
+                   shown := s.shown ++ c.offspring,
+                   shownObj := s.shownObj ++ c.offspringObj,
+                   evals := s.evals ++ c.evaluated.map (fun o => (g, o)) })) :=
+  generation_eq_core ev stp g t s
+
+/-- The non-ghost part of a generation (new tape, heap and oid counter, population; success or failure) does not
+read the ghost records, and the ghost records are extended by the same suffixes — `(g, nevals)`, the offspring,
+the offspring with their content when shown, `(g, o)` for the evaluated `o`, all computed by `genCore` from `(t, s.st, s.pop)` — whatever they held. -/
+theorem state_complete (ev : List Int → List Int) (stp : Step σ) (g : Nat) (t : σ) (s s' : LState)
+    (hst : s.st = s'.st) (hpop : s.pop = s'.pop) :
+    (generation ev stp g t s).map (fun r => (r.1, r.2.st, r.2.pop)) =
+      (generation ev stp g t s').map (fun r => (r.1, r.2.st, r.2.pop)) ∧
+    ∀ r, generation ev stp g t s = some r →
+      ∃ r', generation ev stp g t s' = some r' ∧
+      ∃ c, genCore ev stp t s.st s.pop = some c ∧
+        r.2.log = s.log ++ [(g, c.nevals)] ∧ r'.2.log = s'.log ++ [(g, c.nevals)] ∧
+        r.2.shown = s.shown ++ c.offspring ∧ r'.2.shown = s'.shown ++ c.offspring ∧
+        r.2.shownObj = s.shownObj ++ c.offspringObj ∧ r'.2.shownObj = s'.shownObj ++ c.offspringObj ∧
+        r.2.evals = s.evals ++ c.evaluated.map (fun o => (g, o)) ∧
+        r'.2.evals = s'.evals ++ c.evaluated.map (fun o => (g, o)) := by
+  rw [generation_eq_core ev stp g t s, generation_eq_core ev stp g t s', ← hst, ← hpop]
+  cases genCore ev stp t s.st s.pop with
+  | none => simp
+  | some c =>
+    refine ⟨rfl, ?_⟩
+    intro r hr
+    simp only [Option.map_some, Option.some.injEq] at hr
+    subst hr
+    exact ⟨_, rfl, c, rfl, rfl, rfl, rfl, rfl, rfl, rfl, rfl, rfl⟩
+
+/-- two loop states with the same heap and population and different ghost records -/
+example : tapeState.st = tapeStateG.st ∧ tapeState.pop = tapeStateG.pop ∧
+    tapeState.log ≠ tapeStateG.log ∧ tapeState.shown ≠ tapeStateG.shown ∧
+    tapeState.shownObj ≠ tapeStateG.shownObj ∧ tapeState.evals ≠ tapeStateG.evals :=
+  ⟨rfl, rfl, by decide, by decide, by decide, by decide⟩
+
+example : (generation tapeEv (simpleStep tapeOps ⟨[1, 0], [false], [true, true]⟩) 1 5
+      tapeStateG).map observe =
+    some ⟨7, [2, 3], [⟨[5], some [5]⟩, ⟨[6], some [6]⟩], 4, [(0, 1), (1, 2)], [0, 1, 2, 3],
+      [(0, ⟨[1, 2, 3], some [6]⟩), (1, ⟨[4, 5, 6], some [15]⟩), (2, ⟨[5], some [5]⟩), (3, ⟨[6], some [6]⟩)],
+      [(0, 1), (1, 2), (1, 3)]⟩ := by decide
+
+/-! #### The loop is a `Run` -/
+
+/-- `runGens` is the n-fold machine step (`n` = number of decision records): final tape and loop state agree. -/
+theorem runGens_eq_run (ev : List Int → List Int) (enc : MState σ → B) (dec : B → Option (MState σ))
+    (steps : List (Step σ)) (g : Nat) (t : σ) (s : LState) :
+    runGens ev steps g t s =
+      (run (loopRun ev enc dec) steps.length (some ((g, t, s), steps))).map
+        (fun m => (m.1.2.1, m.1.2.2)) := by
+  rw [run_loopRun ev enc dec steps.length steps g t s, List.take_length]
+  cases runGens ev steps g t s with
+  | none => rfl
+  | some r => rfl
+
+/-- … and the machine ends with the counter advanced by the number of records and no record left. -/
+theorem run_loopRun_all (ev : List Int → List Int) (enc : MState σ → B) (dec : B → Option (MState σ))
+    (steps : List (Step σ)) (g : Nat) (t : σ) (s : LState) :
+    run (loopRun ev enc dec) steps.length (some ((g, t, s), steps)) =
+      (runGens ev steps g t s).map (fun r => ((g + steps.length, r.1, r.2), [])) := by
+  rw [run_loopRun ev enc dec steps.length steps g t s, List.take_length, List.drop_length, Nat.min_self]
+
+/-! #### Resuming the C03 loops from a checkpoint -/
+
+/-- `resume` for the machine: if the checkpoint round-trips (counter, generator state, loop state), killing the
+machine after any `k ≤ n` steps and resuming ends in the state of the uninterrupted machine. -/
+theorem c03_resume_machine (ev : List Int → List Int) (enc : MState σ → B) (dec : B → Option (MState σ))
+    (h : ∀ m, dec (enc m) = some m) (n k : Nat) (hk : k ≤ n) (x : Option (MState σ × List (Step σ))) :
+    resumeFrom (loopRun ev enc dec) k n x = some (run (loopRun ev enc dec) n x) :=
+  resumeFrom_eq (loopRun ev enc dec) (loopRun_roundtrip ev enc dec h) n k hk x
+
+/-- The same about `runGens` itself, for every `k` (also beyond the end): run `k` generations, pickle
+(counter, generator state, loop state), get killed, unpickle, continue with the remaining decision records =
+the uninterrupted run (same tape, heap, population, logbook, hall-of-fame feed, evaluation calls; a failing run
+fails in both). -/
+theorem c03_resume (ev : List Int → List Int) (enc : MState σ → B) (dec : B → Option (MState σ))
+    (h : ∀ m, dec (enc m) = some m) (steps : List (Step σ)) (k g : Nat) (t : σ) (s : LState) :
+    runGens ev steps g t s =
+      (runGens ev (steps.take k) g t s).bind (fun r =>
+        (dec (enc (g + min k steps.length, r.1, r.2))).bind (fun m =>
+          runGens ev (steps.drop k) m.1 m.2.1 m.2.2)) := by
+  have e := runGens_append ev (steps.take k) (steps.drop k) g t s
+  rw [List.take_append_drop] at e
+  rw [e]
+  cases runGens ev (steps.take k) g t s with
+  | none => rfl
+  | some r => simp [h, List.length_take]
+
+/-- The same equation for `k ≤ steps.length` obtained from the abstract theorem `resume` applied to `loopRun`
+(i.e. `c03_resume_machine`) and read back through `run_loopRun`: the statement about `runGens` IS the instance of
+`resume` for the machine. -/
+theorem c03_resume_via_run (ev : List Int → List Int) (enc : MState σ → B) (dec : B → Option (MState σ))
+    (h : ∀ m, dec (enc m) = some m) (steps : List (Step σ)) (k : Nat) (hk : k ≤ steps.length) (g : Nat) (t : σ)
+    (s : LState) :
+    runGens ev steps g t s =
+      (runGens ev (steps.take k) g t s).bind (fun r =>
+        (dec (enc (g + min k steps.length, r.1, r.2))).bind (fun m =>
+          runGens ev (steps.drop k) m.1 m.2.1 m.2.2)) := by
+  have e := resume (loopRun ev enc dec) (loopRun_roundtrip ev enc dec h) steps.length k hk
+    (some ((g, t, s), steps))
+  rw [loopRun_roundtrip ev enc dec h, Option.map_some, Option.some.injEq, run_loopRun_all,
+    run_loopRun ev enc dec k] at e
+  cases hr : runGens ev (steps.take k) g t s with
+  | none =>
+    rw [hr, Option.map_none, run_loopRun_none] at e
+    cases hs : runGens ev steps g t s with
+    | none => rfl
+    | some r => rw [hs] at e; cases e
+  | some r =>
+    have hl : steps.length - k = (steps.drop k).length := by simp
+    rw [hr, Option.map_some, hl, run_loopRun_all] at e
+    simp only [h, Option.bind_some]
+    cases hs : runGens ev steps g t s with
+    | none =>
+      rw [hs] at e
+      cases hd : runGens ev (List.drop k steps) (g + min k steps.length) r.1 r.2 with
+      | none => rfl
+      | some r' => rw [hd] at e; cases e
+    | some r2 =>
+      rw [hs] at e
+      cases hd : runGens ev (List.drop k steps) (g + min k steps.length) r.1 r.2 with
+      | none => rw [hd] at e; cases e
+      | some r' =>
+        rw [hd] at e
+        simp only [Option.map_some, Option.some.injEq, Prod.mk.injEq] at e
+        obtain ⟨⟨-, e1, e2⟩, -⟩ := e
+        exact congrArg some (Prod.ext e1 e2).symm
+/-- a checkpoint format that is not the identity: the components in another order -/
+example : ∀ m : MState Nat,
+    (fun b : LState × Nat × Nat => some (b.2.2, b.2.1, b.1)) ((fun m => (m.2.2, m.2.1, m.1)) m) = some m :=
+  fun _ => rfl
+
+/-- The population-based loops (generation 0, then `for gen in range(1, ngen+1)`): a checkpoint after
+generation `k` (`k = 0`: right after the initial evaluation) holds the counter `1 + k`. -/
+theorem c03_resume_runPop (ev : List Int → List Int) (enc : MState σ → B) (dec : B → Option (MState σ))
+    (h : ∀ m, dec (enc m) = some m) (steps : List (Step σ)) (k : Nat) (t : σ) (s : LState) :
+    runPop ev steps t s =
+      (runPop ev (steps.take k) t s).bind (fun r =>
+        (dec (enc (1 + min k steps.length, r.1, r.2))).bind (fun m =>
+          runGens ev (steps.drop k) m.1 m.2.1 m.2.2)) :=
+  c03_resume ev enc dec h steps k 1 t (gen0 ev s)
+
+/-- `eaSimple` with `ngen = decs.length`, interrupted after generation `k`. -/
+theorem c03_resume_eaSimple (ops : Ops σ) (ev : List Int → List Int) (enc : MState σ → B)
+    (dec : B → Option (MState σ)) (h : ∀ m, dec (enc m) = some m) (decs : List SimpleDec) (k : Nat) (t : σ)
+    (s : LState) :
+    eaSimple ops ev decs t s =
+      (eaSimple ops ev (decs.take k) t s).bind (fun r =>
+        (dec (enc (1 + min k decs.length, r.1, r.2))).bind (fun m =>
+          runGens ev ((decs.drop k).map (simpleStep ops)) m.1 m.2.1 m.2.2)) := by
+  have e := c03_resume_runPop ev enc dec h (decs.map (simpleStep ops)) k t s
+  simpa only [eaSimple, List.map_take, List.map_drop, List.length_map] using e
+
+theorem c03_resume_eaMuPlusLambda (ops : Ops σ) (ev : List Int → List Int) (mu lam : Nat) (enc : MState σ → B)
+    (dec : B → Option (MState σ)) (h : ∀ m, dec (enc m) = some m) (decs : List MuLamDec) (k : Nat) (t : σ)
+    (s : LState) :
+    eaMuPlusLambda ops ev mu lam decs t s =
+      (eaMuPlusLambda ops ev mu lam (decs.take k) t s).bind (fun r =>
+        (dec (enc (1 + min k decs.length, r.1, r.2))).bind (fun m =>
+          runGens ev ((decs.drop k).map (plusStep ops mu lam)) m.1 m.2.1 m.2.2)) := by
+  have e := c03_resume_runPop ev enc dec h (decs.map (plusStep ops mu lam)) k t s
+  simpa only [eaMuPlusLambda, List.map_take, List.map_drop, List.length_map] using e
+
+theorem c03_resume_eaMuCommaLambda (ops : Ops σ) (ev : List Int → List Int) (mu lam : Nat) (enc : MState σ → B)
+    (dec : B → Option (MState σ)) (h : ∀ m, dec (enc m) = some m) (decs : List MuLamDec) (k : Nat) (t : σ)
+    (s : LState) :
+    eaMuCommaLambda ops ev mu lam decs t s =
+      (eaMuCommaLambda ops ev mu lam (decs.take k) t s).bind (fun r =>
+        (dec (enc (1 + min k decs.length, r.1, r.2))).bind (fun m =>
+          runGens ev ((decs.drop k).map (commaStep ops mu lam)) m.1 m.2.1 m.2.2)) := by
+  have e := c03_resume_runPop ev enc dec h (decs.map (commaStep ops mu lam)) k t s
+  unfold eaMuCommaLambda
+  cases commaAssert mu lam with
+  | false => rfl
+  | true => simpa only [List.map_take, List.map_drop, List.length_map, if_true] using e
+
+theorem c03_resume_harm (ops : Ops σ) (ev : List Int → List Int) (nbr : Nat) (enc : MState σ → B)
+    (dec : B → Option (MState σ)) (h : ∀ m, dec (enc m) = some m) (decs : List (HarmDec Bool)) (k : Nat) (t : σ)
+    (s : LState) :
+    harm ops ev nbr decs t s =
+      (harm ops ev nbr (decs.take k) t s).bind (fun r =>
+        (dec (enc (1 + min k decs.length, r.1, r.2))).bind (fun m =>
+          runGens ev ((decs.drop k).map (harmStep ops nbr)) m.1 m.2.1 m.2.2)) := by
+  have e := c03_resume_runPop ev enc dec h (decs.map (harmStep ops nbr)) k t s
+  simpa only [harm, List.map_take, List.map_drop, List.length_map] using e
+
+/-- `eaGenerateUpdate` (`for gen in range(ngen)`, no generation 0): the counter after `k` generations is `k`. -/
+theorem c03_resume_eaGenerateUpdate (ev : List Int → List Int) (enc : MState σ → B)
+    (dec : B → Option (MState σ)) (h : ∀ m, dec (enc m) = some m) (gens : List (List (Nat × Obj) × List Nat))
+    (k : Nat) (t : σ) (st : St) :
+    eaGenerateUpdate ev gens t st =
+      (eaGenerateUpdate ev (gens.take k) t st).bind (fun r =>
+        (dec (enc (min k gens.length, r.1, r.2))).bind (fun m =>
+          runGens ev ((gens.drop k).map (fun g => guStep (σ := σ) g.1 g.2)) m.1 m.2.1 m.2.2)) := by
+  have e := c03_resume ev enc dec h (gens.map (fun g => guStep (σ := σ) g.1 g.2)) k 0 t { st := st, pop := [] }
+  simpa only [eaGenerateUpdate, runGU, List.map_take, List.map_drop, List.length_map, Nat.zero_add] using e
+
+/-- `eaSimple` with operators that draw from the tape, three generations, interrupted after the first, with the
+identity checkpoint: equal to the uninterrupted run. -/
+example : ((eaSimple tapeOps tapeEv (tapeDecs.take 1) 5 tapeState).bind (fun r =>
+      (some (1 + min 1 tapeDecs.length, r.1, r.2)).bind (fun m =>
+        runGens tapeEv ((tapeDecs.drop 1).map (simpleStep tapeOps)) m.1 m.2.1 m.2.2))).map observe =
+    (eaSimple tapeOps tapeEv tapeDecs 5 tapeState).map observe := by decide +kernel
+
+/-- The round-trip hypothesis is not decorative for the real loop either: a checkpoint that forgets the generator
+state (`encNoTape` restarts the tape at 0, the rest is kept) resumes into a different run — the individual mutated
+in generation 3 gets the genome `[0]` instead of `[7]` (and is shown to the hall of fame with it). -/
+theorem c03_resume_needs_tape :
+    encNoTape (2, 7, tapeState) ≠ (2, 7, tapeState) ∧
+    (eaSimple tapeOps tapeEv tapeDecs 5 tapeState).map observe =
+      some ⟨8, [6, 7], [⟨[7], some [7]⟩, ⟨[5], some [5]⟩], 8, [(0, 1), (1, 2), (2, 0), (3, 1)],
+        [0, 1, 2, 3, 4, 5, 6, 7],
+        [(0, ⟨[1, 2, 3], some [6]⟩), (1, ⟨[4, 5, 6], some [15]⟩), (2, ⟨[5], some [5]⟩), (3, ⟨[6], some [6]⟩),
+         (4, ⟨[5], some [5]⟩), (5, ⟨[5], some [5]⟩), (6, ⟨[7], some [7]⟩), (7, ⟨[5], some [5]⟩)],
+        [(0, 1), (1, 2), (1, 3), (3, 6)]⟩ ∧
+    ((eaSimple tapeOps tapeEv (tapeDecs.take 1) 5 tapeState).bind (fun r =>
+      (some (encNoTape (1 + min 1 tapeDecs.length, r.1, r.2))).bind (fun m =>
+        runGens tapeEv ((tapeDecs.drop 1).map (simpleStep tapeOps)) m.1 m.2.1 m.2.2))).map observe =
+      some ⟨1, [6, 7], [⟨[0], some [0]⟩, ⟨[5], some [5]⟩], 8, [(0, 1), (1, 2), (2, 0), (3, 1)],
+        [0, 1, 2, 3, 4, 5, 6, 7],
+        [(0, ⟨[1, 2, 3], some [6]⟩), (1, ⟨[4, 5, 6], some [15]⟩), (2, ⟨[5], some [5]⟩), (3, ⟨[6], some [6]⟩),
+         (4, ⟨[5], some [5]⟩), (5, ⟨[5], some [5]⟩), (6, ⟨[0], some [0]⟩), (7, ⟨[5], some [5]⟩)],
+        [(0, 1), (1, 2), (1, 3), (3, 6)]⟩ := by
+  refine ⟨fun e => ?_, by decide +kernel, by decide +kernel⟩
+  have : (0 : Nat) = 7 := congrArg (fun m : MState Nat => m.2.1) e
+  exact absurd this (by decide)
+
+/-! #### Schedule independence of the evaluation block -/
+
+/-- `fitnesses = pool.map(toolbox.evaluate, invalid_ind)` under ANY completion permutation, then
+`for ind, fit in zip(invalid_ind, fitnesses): ind.fitness.values = fit` = the sequential evaluate-and-assign
+loop of the model (`inv` may list an individual more than once). -/
+theorem c03_schedule_independent (ev : List Int → List Int) (h : Heap) (inv : List Nat) (sched : List Nat)
+    (hs : sched.Perm (List.range inv.length)) :
+    (pmap (fun o => ev (h o).genome) inv sched).map (assignZip h inv) = some (assignFits ev h inv) := by
+  rw [schedule_independent _ inv sched hs, Option.map_some, assignFits_eq_zip]
+
+example : [2, 0, 1].Perm (List.range [1, 0, 1].length) := by decide
+example : ((pmap (fun o => tapeEv (tapeHeap o).genome) [1, 0, 1] [2, 0, 1]).map
+      (fun fits => [0, 1].map (assignZip tapeHeap [1, 0, 1] fits))) =
+    some [⟨[1, 2, 3], some [6]⟩, ⟨[4, 5, 6], some [15]⟩] ∧
+    [0, 1].map (assignFits tapeEv tapeHeap [1, 0, 1]) = [⟨[1, 2, 3], some [6]⟩, ⟨[4, 5, 6], some [15]⟩] := by
+  decide
+
+/-- `evalPhaseWith` with the builtin `map` is `Loops.evalPhase`. -/
+theorem c03_evalPhase_seq (ev : List Int → List Int) (all : Bool) (g : Nat) (s : LState) (l : List Nat) :
+    evalPhaseWith (fun f xs => xs.map f) ev all g s l = evalPhase ev all g s l :=
+  evalPhaseWith_map ev all g s l
+
+/-- Any `toolbox.map` that returns what `map` returns — whatever it does internally — gives the evaluation block
+of the model: heap, hall-of-fame feed, evaluation records and `nevals`. -/
+theorem c03_evalPhase_mapper_independent (mapper : (Nat → List Int) → List Nat → List (List Int))
+    (hm : ∀ f xs, mapper f xs = xs.map f) (ev : List Int → List Int) (all : Bool) (g : Nat) (s : LState)
+    (l : List Nat) : evalPhaseWith mapper ev all g s l = evalPhase ev all g s l := by
+  rw [evalPhaseWith_congr mapper (fun f xs => xs.map f) hm, evalPhaseWith_map]
+
+/-- In particular the parallel map under any family of completion permutations (`schedMapper`). -/
+theorem c03_evalPhase_schedule_independent (sch : Nat → Nat → List Nat)
+    (h : ∀ g n, (sch g n).Perm (List.range n)) (ev : List Int → List Int) (all : Bool) (g : Nat) (s : LState)
+    (l : List Nat) : evalPhaseWith (schedMapper sch g) ev all g s l = evalPhase ev all g s l :=
+  c03_evalPhase_mapper_independent _ (schedMapper_eq_map sch h g) ev all g s l
+
+/-- Pointwise form: one call, one schedule — a permutation of the submission indices of the individuals this
+very call evaluates. -/
+theorem c03_evalPhase_schedule_at (ev : List Int → List Int) (all : Bool) (g : Nat) (s : LState) (l : List Nat)
+    (sched : List Nat)
+    (hs : sched.Perm (List.range (if all then l else invalidOf s.st.heap l).length)) :
+    evalPhaseWith (fun f xs => (pmap f xs sched).getD []) ev all g s l = evalPhase ev all g s l := by
+  simp only [evalPhaseWith, evalPhase, schedule_independent _ _ sched hs, Option.getD_some, assignFits_eq_zip]
+
+example : ∀ g n, (flipSched g n).Perm (List.range n) := by
+  intro g n; unfold flipSched; split
+  · exact List.Perm.refl _
+  · exact List.reverse_perm _
+
+example : [1, 0].Perm (List.range (if false then [0, 1, 2] else invalidOf
+    (fun o => if o = 0 then ⟨[1], some [1]⟩ else ⟨[2], none⟩) [0, 1, 2]).length) := by decide
+
+/-- Not decorative: a map that hands the results back in completion order gives other fitnesses. -/
+example : [0, 1].map (evalPhaseWith (fun f xs => (xs.map f).reverse) tapeEv true 7 tapeState [1, 0]).1.st.heap =
+      [⟨[1, 2, 3], some [15]⟩, ⟨[4, 5, 6], some [6]⟩] ∧
+    [0, 1].map (evalPhase tapeEv true 7 tapeState [1, 0]).1.st.heap =
+      [⟨[1, 2, 3], some [6]⟩, ⟨[4, 5, 6], some [15]⟩] := by decide
+
+/-! #### … lifted to the generation and to the runs -/
+
+theorem c03_generation_schedule_independent (sch : Nat → Nat → List Nat)
+    (h : ∀ g n, (sch g n).Perm (List.range n)) (ev : List Int → List Int) (stp : Step σ) (g : Nat) (t : σ)
+    (s : LState) : generationWith (schedMapper sch g) ev stp g t s = generation ev stp g t s :=
+  generationWith_eq _ (schedMapper_eq_map sch h g) ev stp g t s
+
+/-- Any family of maps (one per generation) that return what `map` returns drives `runGens` through the same
+states. -/
+theorem c03_runGens_mapper_independent (m : Nat → (Nat → List Int) → List Nat → List (List Int))
+    (hm : ∀ g f xs, m g f xs = xs.map f) (ev : List Int → List Int) (steps : List (Step σ)) (g : Nat) (t : σ)
+    (s : LState) : runGensWith m ev steps g t s = runGens ev steps g t s :=
+  runGensWith_eq m hm ev steps g t s
+
+/-- The run of the C03 loops with `toolbox.map` a parallel map under any family of completion permutations (one
+per generation and task count) = the run with the builtin `map`: same tape, heap, population, records. -/
+theorem c03_runGens_schedule_independent (sch : Nat → Nat → List Nat)
+    (h : ∀ g n, (sch g n).Perm (List.range n)) (ev : List Int → List Int) (steps : List (Step σ)) (g : Nat)
+    (t : σ) (s : LState) : runGensWith (schedMapper sch) ev steps g t s = runGens ev steps g t s :=
+  runGensWith_eq _ (schedMapper_eq_map sch h) ev steps g t s
+
+theorem c03_runPop_schedule_independent (sch : Nat → Nat → List Nat)
+    (h : ∀ g n, (sch g n).Perm (List.range n)) (ev : List Int → List Int) (steps : List (Step σ)) (t : σ)
+    (s : LState) : runPopWith (schedMapper sch) ev steps t s = runPop ev steps t s := by
+  rw [runPopWith, runPop, gen0With_eq _ (schedMapper_eq_map sch h 0),
+    runGensWith_eq _ (schedMapper_eq_map sch h)]
+
+theorem c03_eaSimple_schedule_independent (sch : Nat → Nat → List Nat)
+    (h : ∀ g n, (sch g n).Perm (List.range n)) (ops : Ops σ) (ev : List Int → List Int) (decs : List SimpleDec)
+    (t : σ) (s : LState) :
+    runPopWith (schedMapper sch) ev (decs.map (simpleStep ops)) t s = eaSimple ops ev decs t s :=
+  c03_runPop_schedule_independent sch h ev _ t s
+
+example : (runPopWith (schedMapper flipSched) tapeEv (tapeDecs.map (simpleStep tapeOps)) 5 tapeState).map observe =
+    (eaSimple tapeOps tapeEv tapeDecs 5 tapeState).map observe := by decide +kernel
+
+end C03
 
 end C17
